@@ -21,10 +21,11 @@ def check_tref(ctx, K):
     dd = [s for s in A.walk_local(init) if isinstance(s, ast.Assign) and dotted(s.targets[0]) == "self.data"]
     ctx.check(R, dd[0] if dd else init, "helper stores that same data object", len(dd) == 1 and canon(dd[0].value) == "data", "self.data = %s" % (A.unparse(dd[0].value) if dd else None), key="helper-data")
     tf = ctx.prog.func(LH, "get_trend_design_matrix", R)
-    dt = [s for s in A.walk_local(tf) if isinstance(s, ast.Assign) and canon(s.targets[0]) == "dt"]
-    okd = len(dt) == 1 and canon(dt[0].value) == canon(parse("data._t_bmjd - data._t_ref_bmjd"))
-    ctx.check(R, dt[0] if dt else tf, "trend polynomial is in (t - t_ref)", okd,
-              "dt = %s: the sampled v_i are coefficients about another epoch than the t_ref the samples carry and get_orbit uses" % (A.unparse(dt[0].value) if dt else None), key="trend-dt")
+    vd = [c for c in A.calls_in(tf) if A.call_name(c) == "np.vander"]
+    dtv = A.inline_temporaries(vd[0].args[0], A.enclosing_stmt(vd[0]), tf) if len(vd) == 1 and vd[0].args else None
+    okd = dtv is not None and canon(dtv) == canon(parse("data._t_bmjd - data._t_ref_bmjd"))
+    ctx.check(R, vd[0] if vd else tf, "trend polynomial is in (t - t_ref)", okd,
+              "the trend powers are taken of `%s`: the sampled v_i are coefficients about another epoch than the t_ref the samples carry and get_orbit uses" % (A.unparse(dtv) if dtv is not None else None), key="trend-dt")
     n = 0
     for mod, q in ((LH, "make_full_samples_inmem"), (MP, "make_full_samples")):
         f = ctx.prog.func(mod, q, R)
@@ -81,15 +82,17 @@ def check_map(ctx):
         else:
             why = "a = %s" % A.unparse(v)[:80]
     ctx.check(R, sa[0] if sa else go, "a = P K / (2 pi) sqrt(1 - e^2) (so that the orbit's K equals the sampled K)", ok, why, key="a")
-    tc = [s for s in A.walk_local(go) if isinstance(s, ast.Assign) and canon(s.targets[0]) == "trend_coeffs"]
-    okt = False
-    if len(tc) == 2:
-        first, second = sorted(tc, key=lambda s: s.lineno)
-        nm = A.inline_temporaries(first.value, first, go, only={"names"})
-        okt = canon(nm) == canon(parse("[self[x] for x in list(get_linear_equiv_units(self.poly_trend).keys())[1:]]")) and canon(second.value) == canon(parse("[x[index] for x in trend_coeffs]"))
-    ctx.check(R, tc[0] if tc else go, "trend coefficients = linear columns after K, in order, at the index", okt, "trend_coeffs: %s" % [A.unparse(s.value)[:70] for s in tc], key="trend")
     vt = [c for c in A.calls_in(go) if A.call_name(c) == "PolynomialRVTrend"]
-    ctx.check(R, vt[0] if vt else go, "trend built from those coefficients", len(vt) == 1 and canon(vt[0].args[0]) == "trend_coeffs", "PolynomialRVTrend(%s)" % (A.unparse(vt[0].args[0]) if vt else None), key="trend-use", nontrivial=False)
+    okt = False
+    why = "no PolynomialRVTrend"
+    if len(vt) == 1 and vt[0].args:
+        co = _index_symbol(flow.resolve(vt[0].args[0], at=A.enclosing_stmt(vt[0])))
+        forms = ["[x[INDEX] for x in [self[x] for x in list(get_linear_equiv_units(self.poly_trend).keys())[1:]]]",
+                 "[self[x][INDEX] for x in list(get_linear_equiv_units(self.poly_trend).keys())[1:]]",
+                 "[self[x][INDEX] for x in list(get_linear_equiv_units(self.poly_trend))[1:]]"]
+        okt = any(_comp_equal(co, parse(f)) for f in forms)
+        why = "trend coefficients = %s" % A.unparse(co)[:110]
+    ctx.check(R, vt[0] if vt else go, "trend coefficients = linear columns after K, in order, at the index", okt, why, key="trend")
     ix = [s for s in A.walk_local(go) if isinstance(s, ast.If) and A.always_raises(s.body) and "len(self) > 1" in A.unparse(s.test)]
     ctx.check(R, go, "an index is required for multi-row tables", bool(ix), "missing guard", key="index-guard", nontrivial=False)
     # offsets: every linear column must enter the model
@@ -104,6 +107,21 @@ def check_map(ctx):
     lp = [l for l in A.walk_local(orb) if isinstance(l, ast.For)]
     oko = len(ys) == 1 and len(lp) == 1 and canon(lp[0].iter) == canon(parse("range(len(self))")) and canon(ys[0].value) == canon(parse("self.get_orbit(%s)" % lp[0].target.id))
     ctx.check(R, orb, "orbits yields get_orbit(i) for every row in order", oko, "orbits generator changed", key="orbits")
+
+
+def _comp_equal(a, b):
+    """list comprehensions equal modulo the name of their bound variable (one generator, possibly nested)"""
+    def norm(e, k=[0]):
+        e = A.clone(e)
+        for c in [n for n in ast.walk(e) if isinstance(n, ast.ListComp) and len(n.generators) == 1 and isinstance(n.generators[0].target, ast.Name)]:
+            old = c.generators[0].target.id
+            new = "$v%d" % len([1 for _ in ast.walk(c)])
+            for n in ast.walk(c.elt):
+                if isinstance(n, ast.Name) and n.id == old:
+                    n.id = new
+            c.generators[0].target.id = new
+        return canon(e)
+    return norm(a) == norm(b)
 
 
 def _index_symbol(v):
@@ -131,13 +149,15 @@ def check_var(ctx):
     if len(lp) == 1:
         l = lp[0]
         it = l.iter
-        if isinstance(it, ast.Call) and A.call_name(it) == "enumerate" and isinstance(it.args[0], ast.Call) and A.call_name(it.args[0]) == "zip" and [canon(a) for a in it.args[0].args] == ["self.orbits", "s_vars"]:
+        zargs = [A.inline_temporaries(a, l, ll) for a in it.args[0].args] if isinstance(it, ast.Call) and A.call_name(it) == "enumerate" and isinstance(it.args[0], ast.Call) and A.call_name(it.args[0]) == "zip" else []
+        svar_expr = zargs[1] if len(zargs) == 2 else None
+        if len(zargs) == 2 and canon(zargs[0]) == "self.orbits":
             i = l.target.elts[0].id
             orb, s = [e.id for e in l.target.elts[1].elts]
             st = [x for x in l.body if isinstance(x, ast.Assign) and isinstance(x.targets[0], ast.Subscript) and canon(x.targets[0].value) == "lls"]
             if len(st) == 1:
-                v = A.inline_temporaries(st[0].value, st[0], ll, only={"model_rv"})
-                want = "ln_normal(%s.radial_velocity(data.t).to_value(data_unit), data_rv, data_var + %s).sum()" % (orb, s)
+                v = A.inline_temporaries(st[0].value, st[0], ll)
+                want = "ln_normal(%s.radial_velocity(data.t).to_value(data.rv.unit), data.rv.value, data.rv_err.to_value(data.rv.unit) ** 2 + %s).sum()" % (orb, s)
                 ok = canon(st[0].targets[0].slice) == i and canon(v) == canon(parse(want))
                 why = "lls[%s] = %s" % (A.unparse(st[0].targets[0].slice), A.unparse(v)[:110])
                 if not ok and "data_var + " not in A.unparse(v):
@@ -145,12 +165,16 @@ def check_var(ctx):
         else:
             why = "loop is `for %s in %s`" % (A.unparse(l.target), A.unparse(it))
     ctx.check(R, lp[0] if lp else ll, "row i: sum ln N(model_i(t) | y, err^2 + s_i^2)", ok, why, key="row")
-    sv = [s for s in A.walk_local(ll) if isinstance(s, ast.Assign) and canon(s.targets[0]) == "s_vars"]
-    vals = sorted(canon(s.value) for s in sv)
-    oks = vals == sorted([canon(parse("self['s'].to_value(data_unit) ** 2")), canon(parse("np.zeros(len(self))"))])
-    ctx.check(R, sv[0] if sv else ll, "s_vars = s^2 in the data unit (0 without a jitter column)", oks, "s_vars takes %s" % vals, key="s_vars")
-    dv = [s for s in A.walk_local(ll) if isinstance(s, ast.Assign) and canon(s.targets[0]) == "data_var"]
-    ctx.check(R, dv[0] if dv else ll, "data_var = err^2 in the data unit", len(dv) == 1 and equal(dv[0].value, parse("data.rv_err.to_value(data_unit) ** 2")), "data_var = %s" % (A.unparse(dv[0].value) if dv else None), key="data_var")
+    # the per-row jitter variances: the second member of the zip, resolved through its (conditional) definitions
+    fl = A.Flow(ll)
+    vals = []
+    if lp:
+        it = lp[0].iter
+        if isinstance(it, ast.Call) and isinstance(it.args[0], ast.Call) and len(it.args[0].args) == 2:
+            r = fl.resolve(it.args[0].args[1], at=lp[0])
+            vals = sorted(canon(A.inline_temporaries(x, lp[0], ll)) for x in A.strip_ifexp(r))
+    oks = vals == sorted([canon(parse("self['s'].to_value(data.rv.unit) ** 2")), canon(parse("np.zeros(len(self))"))])
+    ctx.check(R, lp[0] if lp else ll, "per-row jitter variance = s^2 in the data unit (0 without a jitter column)", oks, "jitter variances take %s" % vals, key="s_vars")
     rets = [s for s in A.walk_local(ll) if isinstance(s, ast.Return)]
     ctx.check(R, ll, "returns the per-row values", len(rets) == 1 and canon(rets[0].value) == "lls", "returns %s" % [A.unparse(s.value) for s in rets], key="ret", nontrivial=False)
     ln = ctx.prog.func(LH, "ln_normal", R)
